@@ -30,7 +30,7 @@ def respectful_map(pools, rng, expr):
             if r < 0.5:
                 m[k] = sp.Symbol(k.name + "_new", **orig)
             elif orig.get("integer"):
-                m[k] = sp.Integer(rng.randint(0, 2))
+                m[k] = sp.Integer(rng.randint(1, 3))
             else:
                 m[k] = sp.Rational(rng.choice([1, 2, 3, 5]), rng.choice([1, 2, 3]))
         else:
@@ -44,12 +44,13 @@ def same_value(a, b, ctx):
 
     if a == b or m1.canon(a, ctx) == m1.canon(b, ctx):
         return True
-    try:
-        ea, eb = sp.expand(a), sp.expand(b)
-        if ea == eb or m1.canon(ea, ctx) == m1.canon(eb, ctx):
-            return True
-    except Exception:  # noqa: BLE001, S110
-        pass
+    if sp.count_ops(a) + sp.count_ops(b) < 600:
+        try:
+            ea, eb = sp.expand(a), sp.expand(b)
+            if ea == eb or m1.canon(ea, ctx) == m1.canon(eb, ctx):
+                return True
+        except Exception:  # noqa: BLE001, S110
+            pass
     return positive_point_equal(a, b)
 
 
@@ -97,15 +98,26 @@ def check_instance(entry, r, pools, rng, ctx, stats):  # noqa: C901, PLR0912
         try:
             if how == "xreplace":
                 lhs = r.xreplace(sigma).doit()
-                rhs = r.doit().xreplace(sigma)
+                rhs = r.doit().xreplace(sigma).doit()  # the inserted values may be foldable themselves
             else:
                 k, v = next(iter(sigma.items()))
                 sigma = {k: v}
                 lhs = r.subs(k, v).doit()
-                rhs = r.doit().subs(k, v)
+                rhs = r.doit().subs(k, v).doit()
         except Exception as e:  # noqa: BLE001
-            fails.append({"class": f"{how} or doit raised on a valid instance", **rec, "map": {str(k): str(v) for k, v in sigma.items()},
-                          "error": f"{type(e).__name__}: {e}"})
+            # a literal value can hit a pole (division by zero, "Invalid NaN comparison"): only a
+            # failure if a pure renaming (no pole possible) raises as well
+            ren = {k: sp.Symbol(k.name + "_r", **(getattr(k, "_assumptions_orig", {}) or {})) for k in sigma}
+            try:
+                r.xreplace(ren).doit()
+                r.doit().xreplace(ren)
+                stats["singular_substitutions_skipped"] = stats.get("singular_substitutions_skipped", 0) + 1
+            except Exception as e2:  # noqa: BLE001
+                fails.append({"class": f"{how} or doit raised on a valid instance", **rec, "map": {str(k): str(v) for k, v in ren.items()},
+                              "error": f"{type(e2).__name__}: {e2}", "first_error": f"{type(e).__name__}: {e}"})
+            continue
+        if any(x.has(sp.nan, sp.zoo, sp.oo, -sp.oo) for x in (lhs, rhs)):
+            stats["singular_substitutions_skipped"] = stats.get("singular_substitutions_skipped", 0) + 1
             continue
         verdict = same_value(lhs, rhs, ctx)
         stats["commute_" + ("decided" if verdict is not None else "undecided")] += 1
@@ -113,14 +125,13 @@ def check_instance(entry, r, pools, rng, ctx, stats):  # noqa: C901, PLR0912
             fails.append({"class": f"{how} then unfold != unfold then {how}", **rec, "map": {str(k): str(v) for k, v in sigma.items()},
                           "subst_then_doit": str(lhs)[:400], "doit_then_subst": str(rhs)[:400]})
         elif verdict is None:
-            # undecidable numerically (array-valued): the two orders must then agree on which
-            # replacements happened at all: every replaced key must have disappeared from both
-            for k in sigma:
-                if (k in lhs.free_symbols) != (k in rhs.free_symbols):
-                    fails.append({"class": f"{how} then unfold != unfold then {how}", **rec,
-                                  "map": {str(a): str(b) for a, b in sigma.items()}, "key_still_present_in_one_side": str(k),
-                                  "subst_then_doit": str(lhs)[:400], "doit_then_subst": str(rhs)[:400]})
-                    break
+            # undecidable numerically (array-valued): the two fully unfolded sides must at least
+            # mention the same symbols (a replacement that happened on one side only shows here)
+            if lhs.free_symbols != rhs.free_symbols:
+                fails.append({"class": f"{how} then unfold != unfold then {how}", **rec,
+                              "map": {str(a): str(b) for a, b in sigma.items()},
+                              "symbols_only_in_one_side": sorted(map(str, lhs.free_symbols ^ rhs.free_symbols)),
+                              "subst_then_doit": str(lhs)[:400], "doit_then_subst": str(rhs)[:400]})
     # nested unevaluated arguments survive substitution as instances (no Tuple)
     if entry is not None:
         sigma = respectful_map(pools, rng, r)
@@ -143,6 +154,28 @@ def check_instance(entry, r, pools, rng, ctx, stats):  # noqa: C901, PLR0912
                 fails.append({"class": "func(*args) does not reproduce an all-SymPy-field instance", **rec, "rebuilt": str(rb)[:300]})
         except Exception as e:  # noqa: BLE001
             fails.append({"class": "func(*args) does not reproduce an all-SymPy-field instance", **rec, "error": f"{type(e).__name__}: {e}"})
+    return fails
+
+
+def check_template_globals(entry, pools, rng, ctx):
+    """A symbol that `evaluate()` introduces although it is not an argument (and not a Dummy)
+    is rewritten by a substitution after unfolding but not before: the law fails for it."""
+    import sympy as sp
+
+    fails = []
+    globals_ = [s for s in entry.locals if "#dummy" not in s[2]]
+    for s in globals_:
+        sym = m1.make_symbol(s[1], s[2])
+        r = pools.instance_of(entry, rng, 0)
+        sigma = {sym: sp.Integer(7)}
+        try:
+            lhs, rhs = r.xreplace(sigma).doit(), r.doit().xreplace(sigma).doit()
+        except Exception:  # noqa: BLE001, S112
+            continue
+        if same_value(lhs, rhs, ctx) is False or (sym in lhs.free_symbols) != (sym in rhs.free_symbols):
+            fails.append({"class": "xreplace then unfold != unfold then xreplace", "expr": sp.srepr(r)[:1500], "map": {str(sym): "7"},
+                          "why": "evaluate() introduces a free symbol that is not an argument",
+                          "subst_then_doit": str(lhs)[:300], "doit_then_subst": str(rhs)[:300]})
     return fails
 
 
@@ -178,7 +211,11 @@ def _field_equal(a, b) -> bool:
 
 def numpy_code_agrees(entry, pools, rng, n_events=5):  # noqa: C901
     """(4) numerical code of the folded form = numerical code of the unfolded form."""
+    import warnings
+
     import numpy as np
+
+    warnings.filterwarnings("ignore", category=RuntimeWarning)
     import sympy as sp
 
     from ampform.kinematics.lorentz import ArraySize, ThreeMomentum
@@ -243,6 +280,34 @@ def numpy_code_agrees(entry, pools, rng, n_events=5):  # noqa: C901
             fails.append({"class": "numerical code of the folded form != code of the unfolded form", "cls": entry.key,
                           "expr": sp.srepr(r)[:800], "cse": cse, "folded": str(v1)[:200], "unfolded": str(v2)[:200]})
     return fails, n
+
+
+def complex_sqrt_code_agrees():
+    """ComplexSqrt (helper class): generated numpy code = code of its definition, both signs."""
+    import numpy as np
+    import sympy as sp
+
+    from ampform.sympy.math import ComplexSqrt
+
+    import warnings
+
+    warnings.filterwarnings("ignore", category=RuntimeWarning)
+    x = sp.Symbol("x")
+    e = ComplexSqrt(x**2 - 2)
+    pts = np.array([-1.7, -0.3, 0.4, 1.9, 2.5])
+    fails = []
+    for cse in (False, True):
+        try:
+            v1 = np.asarray(sp.lambdify([x], e, "numpy", cse=cse)(pts), dtype=complex)
+            v2 = np.asarray(sp.lambdify([x], e.get_definition(), "numpy", cse=cse)(pts), dtype=complex)
+            want = np.sqrt((pts**2 - 2).astype(complex))
+        except Exception as exc:  # noqa: BLE001
+            fails.append({"class": "numerical code of the folded or unfolded form cannot be generated/run", "cls": "ComplexSqrt", "error": repr(exc)})
+            continue
+        if not (np.allclose(v1, v2, rtol=1e-12) and np.allclose(v1, want, rtol=1e-12)):
+            fails.append({"class": "numerical code of the folded form != code of the unfolded form", "cls": "ComplexSqrt",
+                          "expr": sp.srepr(e), "folded": str(v1), "unfolded": str(v2), "sqrt of complex": str(want)})
+    return fails
 
 
 def witness_astuple():
